@@ -79,12 +79,22 @@ var shapeGoTypes = map[string]reflect.Type{
 	"string": reflect.TypeOf(""), "*int": reflect.TypeOf((*int)(nil)), "[]uint8": reflect.TypeOf([]byte{}),
 	"bool": reflect.TypeOf(false), "float64": reflect.TypeOf(float64(0)), "[]string": reflect.TypeOf([]string{}),
 	"*[]string": reflect.TypeOf((*[]string)(nil)), "time.Time": reflect.TypeOf(time.Time{}), "*uint64": reflect.TypeOf((*uint64)(nil)),
+	"*[]uint8": reflect.TypeOf((*[]byte)(nil)), "*time.Time": reflect.TypeOf((*time.Time)(nil)), "*bool": reflect.TypeOf((*bool)(nil)),
+	"*string": reflect.TypeOf((*string)(nil)),
+}
+
+// jname: the json name a field token stands for ("~" = the key with an empty value)
+func jname(tok string) string {
+	if tok == "~" {
+		return ""
+	}
+	return tok
 }
 
 func tagOf(jsonTag, api string) reflect.StructTag {
 	var parts []string
 	if jsonTag != "" {
-		parts = append(parts, fmt.Sprintf(`json:"%s"`, jsonTag))
+		parts = append(parts, fmt.Sprintf(`json:"%s"`, jname(jsonTag)))
 	}
 	if api != "" {
 		parts = append(parts, fmt.Sprintf(`api:"%s"`, api))
@@ -203,6 +213,7 @@ func runStructCase(c sCaseT) sEventT {
 		try("type-new", func() { _ = typ.New() })
 	}
 	try("new", func() { _ = w.New() })
+	try("copy-zero", func() { _ = w.Copy() }) // every pointer field still nil
 	try("setid", func() { w.Set("id", "i1") })
 	try("getid", func() {
 		if w.Get("id").(string) != "i1" {
@@ -214,7 +225,7 @@ func runStructCase(c sCaseT) sEventT {
 			continue
 		}
 		name := fmt.Sprintf("%d:%s", i+1, f.JSON)
-		try("get:"+name, func() { _ = w.Get(f.JSON) })
+		try("get:"+name, func() { _ = w.Get(jname(f.JSON)) })
 		try("set:"+name, func() {
 			v := reflect.New(shapeGoTypes[f.GoType]).Elem()
 			switch f.GoType {
@@ -232,9 +243,21 @@ func runStructCase(c sCaseT) sEventT {
 				v.SetBool(true)
 			case "[]uint8":
 				v.SetBytes([]byte{1, 2})
+			case "*[]uint8":
+				b := []byte{3, 4}
+				v.Set(reflect.ValueOf(&b))
+			case "*string":
+				x := "p"
+				v.Set(reflect.ValueOf(&x))
+			case "*bool":
+				x := true
+				v.Set(reflect.ValueOf(&x))
+			case "*time.Time":
+				x := time.Unix(5, 6).UTC()
+				v.Set(reflect.ValueOf(&x))
 			}
-			w.Set(f.JSON, v.Interface())
-			if !reflect.DeepEqual(w.Get(f.JSON), v.Interface()) {
+			w.Set(jname(f.JSON), v.Interface())
+			if !reflect.DeepEqual(w.Get(jname(f.JSON)), v.Interface()) {
 				panic("value not read back")
 			}
 		})
